@@ -322,6 +322,103 @@ Definition records_decode_top (depth : nat) (d : dec) : res records :=
   if magic <? 2 then let* (s, d) := mset_decode depth d in Ok (RLegacy s) d
   else let* (b, d) := batch_decode d in Ok (RDefault b) d.
 
+(* ------------------------------------------------------------------ fetch_response.go: FetchResponseBlock *)
+Record fblock := mkFBlock {
+  fb_err : Z; fb_hwm : Z; fb_lso : Z; fb_log_start : Z;
+  fb_aborted : option (list (Z * Z));      (* AbortedTransactions (producer id, first offset); nil vs empty *)
+  fb_replica : Z;
+  fb_records : option records;              (* deprecated Records: an alias of the first element of RecordsSet *)
+  fb_set : list records;                    (* RecordsSet *)
+  fb_partial : bool }.
+
+Fixpoint aborted_prims (l : list (Z * Z)) : list eprim :=
+  match l with [] => [] | (p, o) :: r => PInt64 p :: PInt64 o :: aborted_prims r end.
+Fixpoint set_ops (l : list records) : eerr + eops :=
+  match l with
+  | [] => inr ENil
+  | r :: t => match records_ops_top r, set_ops t with
+              | inl e, _ => inl e
+              | _, inl e => inl e
+              | inr a, inr b => inr (eapp a b)
+              end
+  end.
+(* encode: the deprecated Records field is not written, only RecordsSet *)
+Definition fblock_header (version : Z) (b : fblock) : list eprim :=
+  [PInt16 (fb_err b); PInt64 (fb_hwm b)]
+  ++ (if 4 <=? version then
+        [PInt64 (fb_lso b)] ++ (if 5 <=? version then [PInt64 (fb_log_start b)] else [])
+        ++ [PArrayLength (len (olist (fb_aborted b)))] ++ aborted_prims (olist (fb_aborted b))
+      else [])
+  ++ (if 11 <=? version then [PInt32 (fb_replica b)] else []).
+Definition fblock_ops (version : Z) (b : fblock) : eerr + eops :=
+  match set_ops (fb_set b) with
+  | inl e => inl e
+  | inr so => inr (eseq (fblock_header version b) (EFrame KLen so ENil))
+  end.
+
+Fixpoint mblocks_count (m : mblocks) : Z := match m with MNil => 0 | MCons _ _ t => 1 + mblocks_count t end.
+Definition records_count (r : records) : Z :=
+  match r with
+  | RLegacy (mkSet _ _ ms) => mblocks_count ms
+  | RDefault b => len (olist (b_records b))
+  end.
+Definition records_partial (r : records) : bool :=
+  match r with RLegacy (mkSet p _ _) => p | RDefault b => b_partial b end.
+Definition records_overflow (r : records) : bool :=
+  match r with RLegacy (mkSet _ o _) => o | RDefault _ => false end.
+
+Fixpoint aborted_decode (n : nat) (d : dec) : res (list (Z * Z)) :=
+  match n with
+  | O => Ok [] d
+  | S k => let* (p, d) := get_int64 d in let* (o, d) := get_int64 d in
+           let* (r, d) := aborted_decode k d in Ok ((p, o) :: r) d
+  end.
+
+(* the loop over the records section: for recordsDecoder.remaining() > 0 { ... }; state: alias, set (reversed), partial *)
+Fixpoint fset_loop (depth fuel : nat) (d : dec) (alias : option records) (acc : list records)
+  : res (option records * list records * bool) :=
+  match fuel with
+  | O => Ok (alias, acc, false) d
+  | S k =>
+    if remaining d <=? 0 then Ok (alias, acc, false) d
+    else match records_decode_top depth d with
+         | Err EInsufficient d => Ok (alias, acc, match acc with [] => true | _ => false end) d
+         | Err e d => Err e d
+         | Panic w => Panic w
+         | Alloc n => Alloc n
+         | Ok r d =>
+           let partial := records_partial r in
+           let keep := (0 <? records_count r) || (partial && match acc with [] => true | _ => false end) in
+           let acc' := if keep then acc ++ [r] else acc in
+           let alias' := if keep then match alias with None => Some r | a => a end else alias in
+           if partial || records_overflow r then Ok (alias', acc', false) d
+           else fset_loop depth k d alias' acc'
+         end
+  end.
+
+Definition fblock_decode (depth : nat) (version : Z) (d : dec) : res fblock :=
+  let* (err, d) := get_int16 d in
+  let* (hwm, d) := get_int64 d in
+  let* (lsa, d) :=
+    (if 4 <=? version then
+       let* (lso, d) := get_int64 d in
+       let* (ls, d) := (if 5 <=? version then get_int64 d else Ok 0 d) in
+       let* (nt, d) := get_array_length d in
+       let d := if 0 <=? nt then alloc d (PTR * nt) else d in
+       let* (ab, d) := aborted_decode (if 0 <=? nt then Z.to_nat nt else O) d in
+       Ok (lso, ls, if 0 <=? nt then Some ab else None) d
+     else Ok (0, 0, None) d) in
+  let '(lso, ls, ab) := lsa in
+  let* (replica, d) := (if 11 <=? version then get_int32 d else Ok (-1) d) in
+  let* (size, d) := get_int32 d in
+  let* (sub, d) := get_subset size d in
+  match fset_loop depth (S (Z.to_nat (remaining sub))) (mkDec (raw sub) 0 (mem d) []) None [] with
+  | Ok (alias, set, partial) ds => Ok (mkFBlock err hwm lso ls ab replica alias set partial) (set_mem d (mem ds))
+  | Err e ds => Err e (set_mem d (mem ds))
+  | Panic w => Panic w
+  | Alloc n => Alloc n
+  end.
+
 End Compression.
 
 (* ------------------------------------------------------------------ control_record.go *)
